@@ -114,7 +114,7 @@ Record xchoice := mk_xchoice {
 Inductive result :=
 | RSingle (i : iref)              (* an Individual *)
 | RList (l : list iref)           (* a list of individuals *)
-| RRaise.                         (* ValueError: Mutation.__call__ unpacks an empty zip *)
+| RRaise.                         (* the call raised (never produced by the model; observations only) *)
 
 Definition result_list (r : result) : list iref :=
   match r with RSingle i => [i] | RList l => l | RRaise => [] end.
@@ -207,7 +207,7 @@ Section Model.
   (* Mutation.__call__ on a list (a bare Individual is first wrapped into a one-element list) *)
   Definition mutation_call (cs : list mchoice) (s : store) (pop : list iref) : store * result :=
     match pop with
-    | [] => (s, RRaise)
+    | [] => (s, RList [])          (* if not population: return [] *)
     | _ =>
         let (s', rs) := mutation_map cs s pop in
         let final := drop_rule s' rs pop in
